@@ -79,6 +79,9 @@ type pathCtx struct {
 	ufApps       []ufApp
 	siteOf       func() string
 	forkSites    []string
+	orderIdx     []int    // indices into trace that are map-iteration-order choices
+	orderSites   []string // "site#permutation" in execution order
+	orderDeviated bool
 }
 
 func (c *pathCtx) replaying() bool { return len(c.trace) < len(c.prefix) }
